@@ -23,7 +23,9 @@
 (* inside its stop callback (re-entrant complete() under request_stop()).  *)
 (***************************************************************************)
 EXTENDS Naturals, Sequences, FiniteSets, TLC
-CONSTANTS Scenarios
+CONSTANTS Scenarios,
+          MutDestroyAfterHandover   \* spec-level mutation (non-vacuity of NestedOpDeadBeforeFree): negotiate_deletion()
+                                    \* destroys the nested operation only after the abandoned->complete hand-over
 VARIABLES scn, stk, S, lastT, lastPc
 vars == <<scn, stk, S, lastT, lastPc>>
 View == <<scn, stk, S>>
@@ -31,13 +33,14 @@ A == 1
 B == 2
 C == 3
 T == {A, B, C}
-Silent == {"b_wait", "drop_spin", "fut_deliver", "cb_ret"}
+Silent == {"b_wait", "b_destroy", "drop_spin", "fut_deliver", "cb_ret"}
 Results == {"value", "error", "done"}
 
 S0 == [st |-> "init", evt |-> FALSE, waiter |-> FALSE, opStop |-> FALSE, rcvStop |-> FALSE,
        cb |-> "none", cbBy |-> 0, heap |-> TRUE, frees |-> 0,
        slot |-> "empty", slotCt |-> 0, slotDt |-> 0, opDes |-> 0,
        ld |-> "none", dst |-> "none", claimed |-> FALSE, cch |-> "none",
+       opSt |-> "alive", early |-> FALSE,
        opPh |-> "none", futRes |-> "none", started |-> FALSE, bad |-> FALSE, term |-> FALSE,
        gOpEndBeforeAwait |-> FALSE, gStopBeforeOpEnd |-> FALSE, gReq |-> FALSE, gStopOK |-> TRUE]
 
@@ -57,7 +60,15 @@ Halt(t) == [stk EXCEPT ![t] = <<>>]
 Do(t, nstk, nS) == stk' = nstk /\ S' = nS /\ lastT' = t /\ lastPc' = Top(t) /\ UNCHANGED scn
 \* an access to a field of the shared block: a touch after the block was freed is the bad event
 Touch(t, nstk, nS) == IF S.heap THEN Do(t, nstk, nS) ELSE Do(t, Halt(t), [S EXCEPT !.bad = TRUE])
-Free(s) == [s EXCEPT !.heap = FALSE, !.frees = @ + 1]
+\* the nested operation state (S.opSt: alive -> dying -> dead) lives inside the shared block: freeing the block while it
+\* is alive or being destroyed is the `early` event
+Free(s) == [s EXCEPT !.heap = FALSE, !.frees = @ + 1, !.early = @ \/ s.opSt # "dead"]
+\* scn.nest = "v2": the scope's nest receiver destroys the wrapped operation (the leaf) before it forwards the completion,
+\* what destruct_op() destroys later is an empty shell; scn.nest = "id": nest() returns the sender itself, the spawned
+\* operation state directly contains the leaf, which dies in destruct_op().  Either way the leaf's destructor has a
+\* schedule point (h_opdtor) after which it touches its own members.
+IdNest == scn.nest = "id"
+Dying(s) == [s EXCEPT !.opSt = "dying"]
 KillSlot(s, state) == IF state \in {"value", "error"} THEN [s EXCEPT !.slot = "dead", !.slotDt = @ + 1] ELSE s
 \* the leaf reacting to a stop request: in inline mode it completes with done right there
 StopLeaf(s) == [s EXCEPT !.opStop = TRUE]
@@ -65,20 +76,29 @@ InlineFires == scn.leaf = "inline" /\ ~S.claimed
 Claim(s, ch) == [s EXCEPT !.claimed = TRUE, !.cch = ch, !.opPh = "begun", !.gStopOK = (s.gReq => s.opStop)]
 
 At(t, f) == Busy(t) /\ Top(t) = f
+\* the leaf completing inline (from its stop callback) on thread t, returning to frame f afterwards
+Fire(t, f) == IF IdNest THEN Repl2(t, "complete_cas", f) ELSE [stk EXCEPT ![t] = <<"h_opdtor", "complete_cas", f>> \o Tail(@)]
+FireS(s) == IF IdNest THEN s ELSE Dying(s)
 
 \* ------------------------------------------------------------ thread A / complete()
 a_begin(t) == /\ At(t, "a_begin")
               /\ IF S.claimed THEN Do(t, Pop(t), S)
-                 ELSE Do(t, Repl(t, "complete_cas"), Claim(S, scn.ch))
+                 ELSE IF IdNest THEN Do(t, Repl(t, "complete_cas"), Claim(S, scn.ch))
+                 ELSE Do(t, Repl2(t, "h_opdtor", "complete_cas"), Dying(Claim(S, scn.ch)))
+\* destruct_op(): in id mode it runs the leaf's destructor up to its schedule point
+DtorThen(t, f) == IF IdNest THEN Repl2(t, "h_opdtor", f) ELSE Repl(t, f)
+DtorBegun(s) == IF IdNest THEN Dying(s) ELSE s
+h_opdtor(t) == /\ At(t, "h_opdtor") /\ Touch(t, Pop(t), [S EXCEPT !.opSt = "dead"])
 complete_cas(t) ==
   /\ At(t, "complete_cas")
   /\ CASE S.st = "init" ->
-            Touch(t, Repl(t, "complete_set"),
-                  [S EXCEPT !.st = S.cch, !.opDes = @ + 1,
+            Touch(t, DtorThen(t, "complete_set"),
+                  DtorBegun([S EXCEPT !.st = S.cch, !.opDes = @ + 1,
                             !.slot = IF S.cch \in {"value", "error"} THEN "full" ELSE @,
-                            !.slotCt = IF S.cch \in {"value", "error"} THEN @ + 1 ELSE @])
-       [] S.st = "abandoned" -> Touch(t, Repl(t, "neg_cas"), [S EXCEPT !.opDes = @ + 1])
-       [] S.st = "complete" -> Touch(t, Repl(t, "neg_delete"), [S EXCEPT !.opDes = @ + 1])
+                            !.slotCt = IF S.cch \in {"value", "error"} THEN @ + 1 ELSE @]))
+       [] S.st = "abandoned" /\ MutDestroyAfterHandover -> Touch(t, Repl(t, "neg_cas"), S)
+       [] S.st = "abandoned" /\ ~MutDestroyAfterHandover -> Touch(t, DtorThen(t, "neg_cas"), DtorBegun([S EXCEPT !.opDes = @ + 1]))
+       [] S.st = "complete" -> Touch(t, DtorThen(t, "neg_delete"), DtorBegun([S EXCEPT !.opDes = @ + 1]))
        [] OTHER -> Touch(t, Halt(t), [S EXCEPT !.term = TRUE])
 complete_set(t) ==
   /\ At(t, "complete_set")
@@ -86,8 +106,11 @@ complete_set(t) ==
      ELSE Touch(t, Pop(t), [S EXCEPT !.evt = TRUE, !.opPh = "ended"])
 neg_cas(t) ==
   /\ At(t, "neg_cas")
-  /\ IF S.st = "abandoned" THEN Touch(t, Pop(t), [S EXCEPT !.st = "complete", !.opPh = "ended"])
-     ELSE Touch(t, Repl(t, "neg_delete"), S)
+  /\ CASE S.st = "abandoned" /\ MutDestroyAfterHandover ->
+            Touch(t, IF IdNest THEN Repl(t, "h_opdtor") ELSE Pop(t), DtorBegun([S EXCEPT !.st = "complete", !.opPh = "ended", !.opDes = @ + 1]))
+       [] S.st = "abandoned" /\ ~MutDestroyAfterHandover -> Touch(t, Pop(t), [S EXCEPT !.st = "complete", !.opPh = "ended"])
+       [] S.st # "abandoned" /\ MutDestroyAfterHandover -> Touch(t, DtorThen(t, "neg_delete"), DtorBegun([S EXCEPT !.opDes = @ + 1]))
+       [] OTHER -> Touch(t, Repl(t, "neg_delete"), S)
 neg_delete(t) == /\ At(t, "neg_delete") /\ Touch(t, Pop(t), [Free(S) EXCEPT !.opPh = "ended"])
 
 \* ------------------------------------------------------------ the future's continuation (after evt_)
@@ -103,10 +126,11 @@ fut_cas(t) ==
 fut_delete(t) == /\ At(t, "fut_delete") /\ Touch(t, Repl(t, "fut_deliver"), Free(KillSlot(S, S.ld)))
 \* the nest receiver destroys the future's operation (deregistering the stop callback: blocks while the
 \* callback runs on another thread), then completes the awaiting receiver
+\* (with an identity scope there is no nest receiver: the callback stays registered until B destroys the operation)
 fut_deliver(t) ==
   /\ At(t, "fut_deliver")
-  /\ ~(S.cb = "run" /\ S.cbBy # t)
-  /\ Do(t, Pop(t), [S EXCEPT !.cb = "gone", !.futRes = IF S.ld \in {"value", "error"} THEN S.ld ELSE "done"])
+  /\ IdNest \/ ~(S.cb = "run" /\ S.cbBy # t)
+  /\ Do(t, Pop(t), [S EXCEPT !.cb = IF IdNest THEN @ ELSE "gone", !.futRes = IF S.ld \in {"value", "error"} THEN S.ld ELSE "done"])
 
 \* ------------------------------------------------------------ thread B
 AfterConnect == IF scn.b = "await" THEN "b_start" ELSE "b_opdrop"
@@ -119,7 +143,9 @@ b_start(t) ==
   /\ At(t, "b_start")
   /\ IF S.evt THEN Touch(t, Repl2(t, "fut_load", "b_wait"), [S EXCEPT !.started = TRUE])
      ELSE Touch(t, Repl(t, "b_wait"), [S EXCEPT !.started = TRUE, !.waiter = TRUE])
-b_wait(t) == /\ At(t, "b_wait") /\ S.futRes # "none" /\ Do(t, Pop(t), S)
+b_wait(t) == /\ At(t, "b_wait") /\ S.futRes # "none" /\ Do(t, Repl(t, "b_destroy"), S)
+\* B destroys the completed operation (deregisters the stop callback if it is still registered)
+b_destroy(t) == /\ At(t, "b_destroy") /\ ~(S.cb = "run" /\ S.cbBy # t) /\ Do(t, Pop(t), [S EXCEPT !.cb = "gone"])
 \* destroying a connected, unstarted operation: stop callback deregistered, then the op handle drops
 b_opdrop(t) ==
   /\ At(t, "b_opdrop")
@@ -133,7 +159,7 @@ drop_load(t) ==
        [] OTHER -> Touch(t, Halt(t), [S EXCEPT !.term = TRUE])          \* default: std::terminate()
 drop_stop(t) ==
   /\ At(t, "drop_stop")
-  /\ IF InlineFires THEN Touch(t, Repl2(t, "complete_cas", "drop_cas"), Claim(StopLeaf(S), "done"))
+  /\ IF InlineFires THEN Touch(t, Fire(t, "drop_cas"), FireS(Claim(StopLeaf(S), "done")))
      ELSE Touch(t, Repl(t, "drop_cas"), StopLeaf(S))
 drop_cas(t) ==
   /\ At(t, "drop_cas")
@@ -154,7 +180,7 @@ abandon_cas(t) ==
      ELSE Touch(t, Pop(t), S)
 abandon_stop(t) ==
   /\ At(t, "abandon_stop")
-  /\ IF InlineFires THEN Touch(t, Repl2(t, "complete_cas", "abandon_set"), Claim(StopLeaf(S), "done"))
+  /\ IF InlineFires THEN Touch(t, Fire(t, "abandon_set"), FireS(Claim(StopLeaf(S), "done")))
      ELSE Touch(t, Repl(t, "abandon_set"), StopLeaf(S))
 abandon_set(t) ==
   /\ At(t, "abandon_set")
@@ -163,15 +189,16 @@ abandon_set(t) ==
 cb_ret(t) == /\ At(t, "cb_ret") /\ Do(t, Pop(t), [S EXCEPT !.cb = IF @ = "run" THEN "reg" ELSE @])
 
 \* ------------------------------------------------------------ composition
-SilentStep(t) == b_wait(t) \/ drop_spin(t) \/ fut_deliver(t) \/ cb_ret(t)
-VisibleStep(t) == a_begin(t) \/ complete_cas(t) \/ complete_set(t) \/ neg_cas(t) \/ neg_delete(t)
+SilentStep(t) == b_wait(t) \/ b_destroy(t) \/ drop_spin(t) \/ fut_deliver(t) \/ cb_ret(t)
+VisibleStep(t) == a_begin(t) \/ h_opdtor(t) \/ complete_cas(t) \/ complete_set(t) \/ neg_cas(t) \/ neg_delete(t)
                   \/ fut_load(t) \/ fut_cas(t) \/ fut_delete(t)
                   \/ b_connect(t) \/ b_start(t) \/ b_opdrop(t) \/ b_drop(t)
                   \/ drop_load(t) \/ drop_stop(t) \/ drop_cas(t) \/ drop_delete(t)
                   \/ c_stop(t) \/ abandon_cas(t) \/ abandon_stop(t) \/ abandon_set(t)
 SilentEnabled(t) == Busy(t) /\ CASE Top(t) = "b_wait" -> S.futRes # "none"
+                                  [] Top(t) = "b_destroy" -> ~(S.cb = "run" /\ S.cbBy # t)
                                   [] Top(t) = "drop_spin" -> (~S.heap \/ S.evt)
-                                  [] Top(t) = "fut_deliver" -> ~(S.cb = "run" /\ S.cbBy # t)
+                                  [] Top(t) = "fut_deliver" -> (IdNest \/ ~(S.cb = "run" /\ S.cbBy # t))
                                   [] Top(t) = "cb_ret" -> TRUE
                                   [] OTHER -> FALSE
 Urgent == \E t \in T : SilentEnabled(t)
@@ -193,7 +220,9 @@ ResultDestroyedAtMostOnce == S.slotDt <= S.slotCt /\ S.slotCt <= 1
 Clean == Quiescent /\ ~Stopped
 DeleterCalledExactlyOnce == Clean => (S.frees = 1 /\ ~S.heap)
 ResultDestroyedExactlyOnce == Clean => (S.slotCt = S.slotDt)
-OpDestroyedExactlyOnce == Clean => S.opDes = 1
+OpDestroyedExactlyOnce == Clean => (S.opDes = 1 /\ S.opSt = "dead")
+\* the shared block is never freed while the operation state inside it is alive or being destroyed
+NestedOpDeadBeforeFree == ~S.early
 FutureCompletes == (Clean /\ scn.b = "await") => S.futRes # "none"
 FutureResultMatches == S.futRes \in {"value", "error"} => (S.futRes = S.cch /\ S.opPh # "none")
 DoneOnlyIfDoneOrCancelledEarly ==
